@@ -4,6 +4,7 @@ import (
 	"fmt"
 	"go/token"
 	"go/types"
+	"strconv"
 	"strings"
 
 	"golang.org/x/tools/go/ssa"
@@ -213,6 +214,33 @@ func runTx2(c *core.Ctx) {
 
 // stmtQuery: v is result #0 of tx.PrepareContext(ctx, const) with tx from begin.
 func stmtQuery(v ssa.Value, begin *ssa.Call) (string, bool) {
+	if q, ok := stmtQueryValue(v, begin); ok {
+		return q, true
+	}
+	// the statement kept in a field of a local struct that a private method fills
+	// (`stmts.prepare(ctx, tx)`; `stmts.events.ExecContext(…)`): read by its access path
+	return stmtQueryPath(an.PathOf(v), begin)
+}
+
+// stmtQueryPath: path is `call:(*sql.Tx).PrepareContext(<tx of begin>,ctx,const:"query")#0`.
+func stmtQueryPath(path string, begin *ssa.Call) (string, bool) {
+	prefix := "call:(*database/sql.Tx).PrepareContext(" + an.PathOf(begin) + "#0,"
+	if !strings.HasPrefix(path, prefix) || !strings.HasSuffix(path, ")#0") {
+		return "", false
+	}
+	i := strings.Index(path, ",const:\"")
+	if i < 0 {
+		return "", false
+	}
+	quoted := path[i+len(",const:") : len(path)-len(")#0")]
+	q, err := strconv.Unquote(quoted)
+	if err != nil {
+		return "", false
+	}
+	return q, true
+}
+
+func stmtQueryValue(v ssa.Value, begin *ssa.Call) (string, bool) {
 	e, ok := v.(*ssa.Extract)
 	if !ok || e.Index != 0 {
 		return "", false
